@@ -372,6 +372,44 @@ def owner_tops(ctx: Ctx, f: FunctionInfo, depth: int = 0, seen: Optional[Set[str
         for o in owner_tops(ctx, caller, depth + 1, seen):
             if o not in out:
                 out.append(o)
+    # ... and the functions that hand it on as a function value (`with_s3_retry(partial(self._delete_once, key), ...)`)
+    for user in _value_mentions(ctx).get(top.qname, []):
+        for o in owner_tops(ctx, user, depth + 1, seen):
+            if o not in out:
+                out.append(o)
+    return out
+
+
+def _value_mentions(ctx: Ctx) -> Dict[str, List[FunctionInfo]]:
+    """{qualified name of a package function -> functions that mention it as a VALUE} (`self._helper` / `helper` not in call
+    position): a method through `self.<name>` inside its own class family, a module-level function through its bare name
+    inside its module."""
+    cached = getattr(ctx, "_value_mentions", None)
+    if cached is not None:
+        return cached
+    out: Dict[str, List[FunctionInfo]] = {}
+    for f in ctx.prog.functions.values():
+        if isinstance(f.node, ast.Lambda):
+            continue
+        called = {id(x.func) for x in ast.walk(f.node) if isinstance(x, ast.Call)}
+        top = top_function(f)
+        for x in ast.walk(f.node):
+            if id(x) in called:
+                continue
+            t = None
+            if isinstance(x, ast.Attribute) and isinstance(x.value, ast.Name) and x.value.id == "self" and isinstance(x.ctx, ast.Load) \
+                    and top.cls is not None:
+                for ci in [top.cls] + [c for c in ctx.prog.classes.values() if c is not top.cls and
+                                       (top.cls.name in {(dotted(b) or "").split(".")[-1] for b in getattr(c.node, "bases", [])}
+                                        or c.name in {(dotted(b) or "").split(".")[-1] for b in getattr(top.cls.node, "bases", [])})]:
+                    if x.attr in ci.methods:
+                        t = ci.methods[x.attr]
+                        break
+            elif isinstance(x, ast.Name) and isinstance(x.ctx, ast.Load):
+                t = ctx.prog.functions.get(f"{f.module.name}.{x.id}")
+            if t is not None and t is not f and f not in out.setdefault(t.qname, []):
+                out[t.qname].append(f)
+    ctx._value_mentions = out  # type: ignore[attr-defined]
     return out
 
 
@@ -570,8 +608,10 @@ def effective_compare(ctx: Ctx, f: FunctionInfo, b: Node):
     return None
 
 
-def str_consts(ctx: Ctx, f: FunctionInfo, e: Optional[ast.AST]) -> Set[str]:
-    """String constants of an expression, following references to class / module level constants (NAME, self.NAME)."""
+def str_consts(ctx: Ctx, f: FunctionInfo, e: Optional[ast.AST], at: Optional[int] = None) -> Set[str]:
+    """String constants of an expression, following references to class / module level constants (NAME, self.NAME) and -
+    when the node `at` is given - local variables all of whose reaching definitions are constants / constant collections
+    (the parameter of a helper analysed in place, bound to the literal its caller passed)."""
     out: Set[str] = set()
     if e is None:
         return out
@@ -581,6 +621,13 @@ def str_consts(ctx: Ctx, f: FunctionInfo, e: Optional[ast.AST]) -> Set[str]:
         nm = x.id if isinstance(x, ast.Name) else (x.attr if isinstance(x, ast.Attribute) else None)
         if nm is None:
             continue
+        if at is not None and isinstance(x, ast.Name):
+            g_ = ctx.cfg(f)
+            for d in ctx.rd(f).reaching(at, x.id):
+                dn = g_.nodes[d]
+                if d != g_.entry and isinstance(dn.ast, ast.Assign) and len(dn.ast.targets) == 1 and isinstance(dn.ast.targets[0], ast.Name) \
+                        and isinstance(dn.ast.value, (ast.Constant, ast.Tuple, ast.List, ast.Set, ast.Name, ast.Attribute)):
+                    out |= str_consts(ctx, f, dn.ast.value, None if isinstance(dn.ast.value, ast.Constant) else d)
         top = f
         while top.parent is not None:
             top = top.parent
@@ -612,9 +659,49 @@ def code_branches(ctx: Ctx, f: FunctionInfo, hn: Node):
         mreach = reachable_from(g, mt, NORMAL) if mt is not None else set()
         oreach = reachable_from(g, ot, NORMAL) if ot is not None else set()
         m_only, o_only = mreach - oreach, oreach - mreach
-        yield (b, str_consts(ctx, f, ec[0]),
+        yield (b, str_consts(ctx, f, ec[0], ec[1]),
                {g.nodes[x].raised for x in m_only if g.nodes[x].kind == "raise"},
                {g.nodes[x].raised for x in o_only if g.nodes[x].kind == "raise"}, m_only, o_only)
+
+
+def record_field_arg(ctx: Ctx, call: Optional[ast.AST], attr: str) -> Optional[ast.AST]:
+    """`Rec(a, b).second` -> b: the constructor argument bound to field `attr` of a NamedTuple / dataclass of the package
+    (fields in declaration order, keywords by name; a class that defines __init__ / __new__ / a property of that name is
+    not a plain record)."""
+    if not isinstance(call, ast.Call) or any(k.arg is None for k in call.keywords) or any(isinstance(a, ast.Starred) for a in call.args):
+        return None
+    dn = (dotted(call.func) or "").split(".")[-1]
+    for ci in ctx.prog.classes.values():
+        if ci.name != dn:
+            continue
+        bases = {(dotted(b) or "").split(".")[-1] for b in getattr(ci.node, "bases", [])}
+        decos = {(dotted(d.func if isinstance(d, ast.Call) else d) or "").split(".")[-1] for d in getattr(ci.node, "decorator_list", [])}
+        if not ("NamedTuple" in bases or "dataclass" in decos) or any(m_ in ci.methods for m_ in ("__init__", "__new__", "__post_init__", attr)):
+            return None
+        fields = [st.target.id for st in getattr(ci.node, "body", []) if isinstance(st, ast.AnnAssign) and isinstance(st.target, ast.Name)]
+        if attr not in fields:
+            return None
+        i = fields.index(attr)
+        if i < len(call.args):
+            return call.args[i]
+        return next((k.value for k in call.keywords if k.arg == attr), None)
+    return None
+
+
+def record_positional_arg(ctx: Ctx, call: Optional[ast.AST], i: int, arity: int) -> Optional[ast.AST]:
+    """Element i of `Rec(...)` seen as a tuple (NamedTuple of the package with exactly `arity` fields)."""
+    if not isinstance(call, ast.Call):
+        return None
+    dn = (dotted(call.func) or "").split(".")[-1]
+    for ci in ctx.prog.classes.values():
+        if ci.name != dn:
+            continue
+        bases = {(dotted(b) or "").split(".")[-1] for b in getattr(ci.node, "bases", [])}
+        fields = [st.target.id for st in getattr(ci.node, "body", []) if isinstance(st, ast.AnnAssign) and isinstance(st.target, ast.Name)]
+        if "NamedTuple" not in bases or len(fields) != arity or not (0 <= i < arity):
+            return None
+        return record_field_arg(ctx, call, fields[i])
+    return None
 
 
 def facts_at(ctx: Ctx, f: FunctionInfo, n: Node) -> List[Tuple[str, ast.AST, int]]:
@@ -654,11 +741,38 @@ def facts_at(ctx: Ctx, f: FunctionInfo, n: Node) -> List[Tuple[str, ast.AST, int
                 and e.comparators[0].value is None and isinstance(e.ops[0], (ast.Is, ast.IsNot)) and pol in ("true", "false"):
             isnone = isinstance(e.ops[0], ast.Is) == (pol == "true")
             add("null" if isnone else "nonnull", e.left, at, depth + 1)
+        elif isinstance(e, ast.Attribute) and isinstance(e.value, ast.Name) and pol in ("true", "false"):
+            # `owner.is_us` with `owner = Rec(x, x == mine)` (directly or as the single result of a helper analysed in place)
+            defs = rd.reaching(at, e.value.id)
+            if len(defs) == 1:
+                d = next(iter(defs))
+                dn = g.nodes[d]
+                if d != g.entry and dn.kind == "stmt" and isinstance(dn.ast, ast.Assign) and len(dn.ast.targets) == 1 \
+                        and isinstance(dn.ast.targets[0], ast.Name):
+                    v, vat = dn.ast.value, d
+                    hops = 0
+                    while isinstance(v, ast.Call) and id(v) in g.inline_returns and len(g.inline_returns[id(v)]) == 1 and hops < 4:
+                        v, vat = g.inline_returns[id(v)][0]
+                        hops += 1
+                    arg = record_field_arg(ctx, v, e.attr)
+                    if arg is not None and same_operands(arg, vat, at):
+                        add(pol, arg, vat, depth + 1)
         elif isinstance(e, ast.Name):
             defs = rd.reaching(at, e.id)
             if len(defs) == 1:
                 d = next(iter(defs))
                 dn = g.nodes[d]
+                if pol in ("nonnull", "true") and d != g.entry and dn.kind == "stmt" and isinstance(dn.ast, ast.Assign) \
+                        and len(dn.ast.targets) == 1 and isinstance(dn.ast.targets[0], ast.Name) \
+                        and isinstance(dn.ast.value, ast.Call) and id(dn.ast.value) in g.inline_returns and depth < 3:
+                    # `x = self._helper()` analysed in place, every result but one is `None`: x is set exactly when the
+                    # helper left through that return - what is known there is known here
+                    rets = [(rv, rn) for rv, rn in g.inline_returns[id(dn.ast.value)] if rn in g.reachable()]
+                    live = [(rv, rn) for rv, rn in rets if not (rv is None or (isinstance(rv, ast.Constant) and rv.value is None))]
+                    if len(live) == 1 and len(rets) > 1:
+                        for p2, e2, at2 in facts_at(ctx, f, g.nodes[live[0][1]]):
+                            if same_operands(e2, at2, at) and not any(x is e2 for _p, x, _a in out):
+                                out.append((p2, e2, at2))
                 if d != g.entry and dn.kind == "stmt" and isinstance(dn.ast, (ast.Assign, ast.AnnAssign)) \
                         and getattr(dn.ast, "value", None) is not None:
                     tg = dn.ast.targets if isinstance(dn.ast, ast.Assign) else [dn.ast.target]
@@ -962,6 +1076,20 @@ def concrete_eval(ctx: Ctx, f: FunctionInfo, e: Optional[ast.AST], env: Dict[str
         if isinstance(a, (int, float)) and isinstance(b, (int, float)) and not isinstance(a, bool) and not isinstance(b, bool):
             return a + b
         return UNKNOWN
+    if isinstance(e, ast.BinOp) and isinstance(e.op, ast.Sub):
+        a, b = ev(e.left), ev(e.right)
+        if isinstance(a, (int, float)) and isinstance(b, (int, float)) and not isinstance(a, bool) and not isinstance(b, bool):
+            return a - b
+        return UNKNOWN
+    if isinstance(e, ast.Call) and isinstance(e.func, ast.Name) and e.func.id == "range" and 1 <= len(e.args) <= 3 and not e.keywords:
+        rv = [ev(x) for x in e.args]
+        if all(isinstance(x, int) and not isinstance(x, bool) for x in rv):
+            try:
+                r0 = range(*rv)  # type: ignore[arg-type]
+            except Exception:
+                return UNKNOWN
+            return tuple(r0) if len(r0) <= 64 else UNKNOWN
+        return UNKNOWN
     if isinstance(e, ast.JoinedStr):
         out = []
         for part in e.values:
@@ -1169,20 +1297,23 @@ def _sym_of(e: ast.AST) -> Optional[Sym]:
 
 def explore(ctx: Ctx, f: FunctionInfo, starts: Iterable[int], env: Optional[Dict[str, object]] = None,
             assume: Optional[Dict[int, bool]] = None, stop: Iterable[int] = (), watch: Iterable[int] = (),
-            max_states: int = 6000) -> List[Tuple[int, Dict[object, object], Dict[int, bool]]]:
+            max_states: int = 6000, init: Optional[Dict[object, object]] = None,
+            iterate: bool = False) -> List[Tuple[int, Dict[object, object], Dict[int, bool]]]:
     """Path-sensitive walk over the normal edges of f's CFG (ESP-style property simulation): each state is a node plus a
     finite store {variable -> constant | Sym} and a set of assumptions {atom -> bool}.  Assignments of evaluable
     expressions update the store, an undecidable branch forks and records the assumption (so a flag tested twice is
     consistent), the return value of a helper analysed in place is carried to the assignment of its call.
     Returns [(end node, store, assumptions)] for every path that reaches a `stop` node or the exit; store[('seen', n)]
-    is True when watch node n was passed."""
+    is True when watch node n was passed.  `init` is the store the walk starts with (to continue a walk that stopped at a
+    node); with `iterate`, `for x in <evaluable sequence>` binds x element by element and `n += <int>` is computed."""
     g = ctx.cfg(f)
     env = dict(env or {})
     stop_set, watch_set = set(stop), set(watch)
     ret_call = {nid: cid for cid, lst in g.inline_returns.items() for (_e, nid) in lst}
     results: List[Tuple[int, Dict[object, object], Dict[int, bool]]] = []
-    work: List[Tuple[int, Dict[object, object], Dict[int, bool]]] = [(s, {}, dict(assume or {})) for s in starts]
+    work: List[Tuple[int, Dict[object, object], Dict[int, bool]]] = [(s, dict(init or {}), dict(assume or {})) for s in starts]
     seen: Set[Tuple[int, frozenset, frozenset]] = set()
+    first = {s for s in starts}
 
     def value_of(e: Optional[ast.AST], at: int, store: Dict[object, object]) -> object:
         if e is None:
@@ -1222,12 +1353,35 @@ def explore(ctx: Ctx, f: FunctionInfo, starts: Iterable[int], env: Optional[Dict
         store = dict(store)
         if nid in watch_set:
             store[("seen", nid)] = True
-        if nid in stop_set or nid == g.exit:
+        if (nid in stop_set and not (init is not None and nid in first and store == init)) or nid == g.exit:
             results.append((nid, store, asm))
             continue
         n = g.nodes[nid]
         a = n.ast
-        if n.kind == "stmt" and isinstance(a, ast.Assign) and len(a.targets) == 1 and isinstance(a.targets[0], ast.Name):
+        if iterate and n.kind == "loop" and isinstance(a, ast.For) and isinstance(a.target, ast.Name):
+            seq = value_of(a.iter, nid, store)
+            if isinstance(seq, tuple) and not isinstance(seq, PartialTuple):
+                i = store.get(("iter", nid), 0)
+                if isinstance(i, int) and i < len(seq):
+                    store[a.target.id] = seq[i]
+                    store[("iter", nid)] = i + 1
+                    t = edge_target(g, n, "true")
+                else:
+                    store.pop(("iter", nid), None)
+                    t = edge_target(g, n, "false")
+                if t is not None:
+                    work.append((t, store, asm))
+                continue
+        if iterate and n.kind == "stmt" and isinstance(a, ast.AugAssign) and isinstance(a.target, ast.Name) \
+                and isinstance(a.op, (ast.Add, ast.Sub)):
+            cur, dv = store.get(a.target.id, env.get(a.target.id, UNKNOWN)), value_of(a.value, nid, store)
+            if cur is UNKNOWN and a.target.id not in store:
+                cur = value_of(ast.Name(id=a.target.id, ctx=ast.Load()), nid, store)
+            if isinstance(cur, int) and isinstance(dv, int) and not isinstance(cur, bool) and not isinstance(dv, bool):
+                store[a.target.id] = cur + dv if isinstance(a.op, ast.Add) else cur - dv
+            else:
+                store[a.target.id] = UNKNOWN
+        elif n.kind == "stmt" and isinstance(a, ast.Assign) and len(a.targets) == 1 and isinstance(a.targets[0], ast.Name):
             store[a.targets[0].id] = value_of(a.value, nid, store)
         elif n.kind == "stmt" and isinstance(a, ast.Assign) and len(a.targets) == 1 and isinstance(a.targets[0], (ast.Tuple, ast.List)):
             tv = value_of(a.value, nid, store)
@@ -1452,6 +1606,11 @@ def resolve_value(ctx: Ctx, f: FunctionInfo, e: Optional[ast.AST], at: int, dept
                 for src, sat in resolve_value(ctx, f, dn.ast.value, d, depth + 1):
                     if idx is not None and isinstance(src, (ast.Tuple, ast.List)) and len(src.elts) == len(tg.elts):
                         out += resolve_value(ctx, f, src.elts[idx], sat, depth + 1)
+                        continue
+                    # unpacking a NamedTuple built in place: element i is the argument of the i-th declared field
+                    fa = record_positional_arg(ctx, src, idx, len(tg.elts)) if idx is not None else None
+                    if fa is not None:
+                        out += resolve_value(ctx, f, fa, sat, depth + 1)
                     else:
                         out.append((src, sat))
             else:
